@@ -21,6 +21,8 @@ def run(ctx, rep):
     rep.rule("default-mode", "default_file_write_mode returns UnlinkAndReplace on the is_shared_object() edge; in-place modes only when not a shared object and the output exists")
     rep.rule("truncate-arm", "OpenOptions::truncate(true) only on the UnlinkAndReplace arm of SizedOutput::new; in-place arms pass false")
     rep.rule("unlink-before-open", "on the UnlinkAndReplace arm the open is dominated by the success edge of the unlink helper")
+    rep.rule("skip-guard", "unlink_old_output leaves the path alone only if lstat (symlink_metadata, never the symlink-following metadata) fails or says the path is "
+             "neither a regular file nor a symlink: `-o link` with link -> lib.so.1 must remove the link, not truncate lib.so.1 through it (fixed in /repo 2f5fb32)")
     rep.rule("unlink-strict", "the unlink helper returns Ok after remove_file only if it succeeded or failed with NotFound; its result is used")
     rep.rule("busy-fallback", "ExecutableFileBusy with UpdateInPlaceWithFallback removes the path and re-creates it; other open errors propagate")
 
@@ -140,6 +142,7 @@ def run(ctx, rep):
     cfg, flow = P.cfg(u), P.flow(u)
     rms = [bi for bi, t in flow.calls() if callee_key(t["f"]) == "std::fs::remove_file"]
     rep.ob("unlink-strict", "calls-remove_file", len(rms) >= 1, "the helper unlinks the path", u.file, u.line)
+    _skip_guard(rep, P, F, u, flow, set(rms))
     for r in rms:
         t = u.blocks[r]["t"]
         okb, bad = success_blocks(u, flow, cfg, lambda k: k == "std::fs::remove_file")
@@ -209,3 +212,47 @@ def _fail_edges(body, flow, cfg):
             if vals and 0 not in vals:
                 out.add((sb, lab))
     return out
+
+
+def _skip_guard(rep, P, F, u, flow, rms):
+    import decide
+    paths = decide.bool_paths(P, F, u, targets=rms)
+    dom = decide.table_atoms(paths)
+    deciding = set()
+    for a in dom:
+        # an atom decides whether remove_file is reached if flipping it alone changes the outcome of some consistent assignment
+        for assign, res in paths:
+            if a in assign:
+                for assign2, res2 in paths:
+                    if res2 != res and all(assign2.get(k, v) == v for k, v in assign.items() if k != a) and assign2.get(a) != assign[a] and a in assign2:
+                        deciding.add(a)
+    rep.ob("skip-guard", "deciders", len(deciding) >= 1, f"atoms deciding whether the old path is unlinked: {sorted(deciding)}", u.file, u.line)
+    stat_calls = {callee_key(t["f"]) for _bi, t in flow.calls() if (callee_key(t["f"]) or "") in ("std::fs::metadata", "std::fs::symlink_metadata", "std::path::Path::metadata",
+                  "std::path::Path::symlink_metadata", "std::path::Path::is_file", "std::path::Path::exists", "std::path::Path::is_symlink", "std::path::Path::try_exists")}
+    follows = sorted(k for k in stat_calls if not k.endswith("symlink_metadata") and not k.endswith("is_symlink"))
+    rep.ob("skip-guard", "lstat", bool(stat_calls) and not follows, f"file type is taken from {sorted(stat_calls)}" + (f"; {follows} follow symlinks" if follows else ""), u.file, u.line)
+    closure_form = [a for a in deciding if "is_ok_and(symlink_metadata(" in a]
+    if closure_form and len(deciding) == 1:
+        # unlink iff is_ok_and(lstat, closure): closure must be is_file || is_symlink
+        ok_pol = all(res == bool(assign.get(closure_form[0])) for assign, res in paths)
+        rep.ob("skip-guard", "polarity", ok_pol, "remove_file is reached exactly when the is_ok_and test is true", u.file, u.line)
+        cl = None
+        for c in F.closures_of("libwild::file_writer::unlink_old_output"):
+            names = {(callee_key(t["f"]) or "").split("::")[-1] for _bi, t in P.flow(c).calls()}
+            if "file_type" in names or "is_file" in names:
+                cl = c
+        if cl is None:
+            rep.lost("skip-guard", "the closure of is_ok_and testing the file type")
+            return
+        cp = decide.bool_paths(P, F, cl)
+        ok, why = decide.check_formula(cp, {"file": "is_file", "link": "is_symlink"}, lambda v: bool(v["file"] or v["link"]))
+        rep.ob("skip-guard", "regular-or-symlink", ok, f"the path is unlinked iff it is a regular file or a symlink: {why}", cl.file, cl.line)
+    else:
+        lst = [a for a in dom if "symlink_metadata(" in a]
+
+        def spec(v):
+            stat_ok = all(v[a] in ("Ok", True) for a in lst)
+            return bool(stat_ok and (v["file"] or v["link"]))
+        ok, why = decide.check_formula(paths, {"file": "is_file", "link": "is_symlink"}, spec, free_ok=tuple(lst))
+        # inline form: the unlink is reached iff lstat succeeded and the type is regular file or symlink
+        rep.ob("skip-guard", "regular-or-symlink", ok, f"inline guard: {why}", u.file, u.line)
